@@ -152,6 +152,10 @@ impl DiskRowset {
                 let mut pre_block_first_key = 0;
                 for index in column_index.indexes() {
                     let mut first_key: &[u8] = &index.first_key;
+                    if first_key.len() < std::mem::size_of::<i32>() {
+                        // first keys are not recorded (`record_first_key` is off): no seek
+                        return ColumnSeekPosition::RowId(0);
+                    }
                     let first_val: i32 = PrimitiveFixedWidthEncode::decode(&mut first_key);
 
                     if first_val > begin_val {
